@@ -157,8 +157,13 @@ class DatabaseService(Service, discriminator="database-service"):
 
         old_visible_state = SoftwareHealthState.GOOD
 
-        # get db file regardless of whether or not it was deleted
-        db_file = self.file_system.get_file(folder_name="database", file_name="database.db", include_deleted=True)
+        # get db file regardless of whether or not it was deleted (if deleted: the most recently deleted one, not an
+        # older incarnation that an earlier restore replaced)
+        db_file = self.db_file
+        if db_file is None:
+            folder = self.file_system.get_folder("database")
+            deleted = [f for f in folder.deleted_files.values() if f.name == "database.db"] if folder else []
+            db_file = deleted[-1] if deleted else None
 
         if db_file is None:
             self.sys_log.warning("Database file not initialised.")
